@@ -234,6 +234,60 @@ def gen_world(rng, flavour, tiny=False, allow_running=True, force=None):
     return {"now": now, "cfg": cfg, "resources": RES, "pools": pools, "graphs": graphs}
 
 
+def hopeless_run_world(rng, flavour):
+    """2-5 independent RELEASED one-task graphs, with runs of >= 2 (often >= 3) ADJACENT hopeless tasks
+    (deadline < now + fastest runtime) in the order in which the workload offers them, optionally next to healthy ones."""
+    now = rng.choice([0, 2, 5])
+    pattern = rng.choice(["HH", "HHH", "HHo", "oHH", "oHHH", "HHHo", "HoHH", "HHoHH", "oHHo"])
+    graphs = []
+    for k, c in enumerate(pattern):
+        ss = [[rng.choice([2, 3, 4]), [["CPU", 1]]]]
+        if rng.random() < 0.4:
+            ss.append([ss[0][0] + rng.choice([1, 2]), [["CPU", 1]]])
+            if rng.random() < 0.5:
+                ss.reverse()
+        fastest = min(x[0] for x in ss)
+        dl = now + fastest - rng.choice([1, 1, 2]) if c == "H" else now + fastest + rng.choice([0, 2, 6])
+        graphs.append({"name": "g%d" % k, "tasks": [{"name": "t%d0" % k, "strats": ss, "children": [], "release": rng.randint(0, now),
+                                                      "deadline": max(0, dl), "state": "released"}]})
+    return {"now": now, "cfg": {"flavour": flavour, "enforce": True, "retract": rng.random() < 0.5, "disc": rng.choice([1, 1, 2]),
+                                "release_tg": False, "plan_ahead": -1},
+            "resources": RES, "pools": [[{"name": "W1", "res": [["CPU", rng.choice([1, 2, 3])]]}]], "graphs": graphs}
+
+
+def running_parent_world(rng):
+    """Whole-graph mode (Gurobi): a parent started in an EARLIER invocation and partly executed (remaining < runtime) and a child
+    whose deadline admits only start slots in (now + remaining, now + runtime]; a second CPU / worker leaves room for the child."""
+    d = rng.choice([1, 1, 2])
+    now = rng.choice([2, 3, 4, 6])
+    rt = rng.choice([4, 5, 6, 8])
+    elapsed = rng.randint(1, min(now, rt - 2))
+    rem = rt - elapsed
+    # child start slots (now + k*d) inside the window [now + rem + 1, now + rt]
+    window = [s for s in range(now, now + rt + 1, d) if now + rem + 1 <= s <= now + rt]
+    rc = rng.choice([1, 2, 3])
+    if window:
+        s0 = rng.choice(window)
+        child_dl = s0 + rc + (d - 1 if rng.random() < 0.3 else 0)
+        child_dl = min(child_dl, now + rt + rc)      # never admits a slot after now + runtime
+    else:
+        child_dl = now + rt + rc
+    two_workers = rng.random() < 0.5
+    pools = [[{"name": "W1", "res": [["CPU", 1]]}, {"name": "W2", "res": [["CPU", 1]]}]] if two_workers else \
+        [[{"name": "W1", "res": [["CPU", 2]]}]]
+    tasks = [{"name": "t00", "strats": [[rt, [["CPU", 1]]]], "children": ["t01"], "release": 0, "deadline": now + rem + rng.choice([0, 3]),
+              "state": "running", "place": {"worker": "W1", "strat": 0, "start": now - elapsed, "sched_at": now - elapsed,
+                                            "remaining": rem}},
+             {"name": "t01", "strats": [[rc, [["CPU", 1]]]], "children": [], "release": -1, "deadline": child_dl, "state": "virtual"}]
+    graphs = [{"name": "g0", "tasks": tasks}]
+    if rng.random() < 0.4:
+        graphs.append({"name": "g1", "tasks": [{"name": "t10", "strats": [[rng.choice([1, 2]), [["CPU", 1]]]], "children": [],
+                                                 "release": 0, "deadline": now + 12, "state": "released"}]})
+    return {"now": now, "cfg": {"flavour": "gurobi", "enforce": True, "retract": True, "disc": d, "release_tg": True,
+                                "plan_ahead": -1},
+            "resources": RES, "pools": pools, "graphs": graphs}
+
+
 def world_key(w):
     return json.dumps(w, sort_keys=True)
 
@@ -257,6 +311,12 @@ def run_worlds(worlds, chunk=40, probe=None):
     with ThreadPoolExecutor(max_workers=8) as ex:
         for r in ex.map(lambda p: core.run_impl("tetri.py", {"cases": p, "probe": probe}, timeout=900)["results"], parts):
             out.extend(r)
+    for w, r in zip(worlds, out):        # the remaining time of a RUNNING task is the world's, not what the scheduler sees
+        if "inst" in r:
+            desc = {t["name"] + "@" + g["name"]: t for g in w["graphs"] for t in g["tasks"]}
+            for t in r["inst"]["tasks"]:
+                if t["state"][0] == "running" and t["name"] in desc and "place" in desc[t["name"]]:
+                    t["state"][3] = desc[t["name"]]["place"]["remaining"]
     return out
 
 
@@ -455,15 +515,23 @@ def py_live_checks(inst, dump):
     return None
 
 
-def max_hyp_py(inst):
-    return (not has_running(inst) and all(t["nparents"] == len(t["parents"]) for t in inst["tasks"])
+def maximal_hyp_py(inst):
+    """Where the maximality monitor applies: every parent of a task has variables, runtimes are positive.  RUNNING tasks are
+    allowed: they are charged as the formulation charges them (whole runtime from now: known finding F11-iii, kept apart),
+    while a running PARENT bounds its child by its expected finish now + remaining (+1)."""
+    return (all(t["nparents"] == len(t["parents"]) for t in inst["tasks"])
             and all(s[0] > 0 for t in inst["tasks"] for s in t["strats"]))
+
+
+def max_hyp_py(inst):
+    """Hypotheses of theorem C14_tetri_maximal (no running task)."""
+    return not has_running(inst) and maximal_hyp_py(inst)
 
 
 def py_maximal(inst, exp):
     """Python twin of TetriModel.maximal_okb: a rewarded task left out although it can be added at an allowed slot
     now + k*d on some worker with some strategy (half-open occupation at slot times, child >= parent start + slowest + 1)."""
-    if not max_hyp_py(inst):
+    if not maximal_hyp_py(inst):
         return None
     now, d = inst["now"], inst["disc"]
     h = inst["plan_ahead"] if inst["plan_ahead"] != -1 else max([t["deadline"] for t in inst["tasks"]] + [-1])
@@ -471,17 +539,24 @@ def py_maximal(inst, exp):
     placed = {i: p for i, p in exp if p}
     total = {w["idx"]: dict(w["total"]) for w in inst["workers"]}
     occ = [(p[0], p[2], p[2] + inst["tasks"][i]["strats"][p[1]][0], dict(inst["tasks"][i]["strats"][p[1]][1])) for i, p in placed.items()]
+    for t in inst["tasks"]:       # running tasks, charged as the formulation charges them (F11-iii is reported separately)
+        if t["state"][0] == "running":
+            occ.append((t["state"][1], now, now + t["state"][2][0], dict(t["state"][2][1])))
     for i, t in enumerate(inst["tasks"]):
-        if i in placed or not (t["sink"] or not inst["release_tg"] or inst["flavour"] == "cplex"):
+        if i in placed or t["state"][0] == "running" or not (t["sink"] or not inst["release_tg"] or inst["flavour"] == "cplex"):
             continue
         lo = max([now, t["release"]])
         ok_par = True
         if inst["flavour"] == "gurobi":
             for q in t["parents"]:
+                pq = inst["tasks"][q]
+                if pq["state"][0] == "running":      # expected finish of a running parent: now + remaining (world description)
+                    lo = max(lo, now + pq["state"][3] + 1)
+                    continue
                 if q not in placed:
                     ok_par = False
                     break
-                lo = max(lo, placed[q][2] + max(s[0] for s in inst["tasks"][q]["strats"]) + 1)
+                lo = max(lo, placed[q][2] + max(s[0] for s in pq["strats"]) + 1)
         if not ok_par:
             continue
         for w in inst["workers"]:
@@ -506,41 +581,55 @@ def py_maximal(inst, exp):
 
 
 def monitor_hopeless(ctx, worlds, results):
-    """Answers to offered tasks under enforce_deadlines, by the documented rule with the TRUE invocation time: a hopeless task
-    (deadline < now + fastest) is not placed, CPLEX cancels it and nothing else, Gurobi never cancels."""
+    """Answers to offered tasks under enforce_deadlines, by the documented rule, from the WORLD description and the true
+    invocation time: a hopeless task (deadline < now + fastest) is not placed; CPLEX answers EVERY hopeless released task with
+    CANCEL_TASK and cancels nothing else; Gurobi never cancels."""
     cases, where, pybad = [], [], []
     for i, (w, r) in enumerate(zip(worlds, results)):
         if r.get("placements") is None or r.get("error") or not w["cfg"]["enforce"]:
             continue
         now = w["now"]
+        cplex = w["cfg"]["flavour"] == "cplex"
         offered = {t["name"] + "@" + g["name"]: t for g in w["graphs"] for t in g["tasks"]}
+        answers = {}
         for p in r["placements"]:
-            t = offered[p["task"]]
+            answers.setdefault(p["task"], []).append(p)
+        todo = [(name, p) for name, ps in answers.items() for p in ps]
+        # a RELEASED task is offered: with no answer at all it counts as neither placed nor cancelled
+        todo += [(name, {"placed": False, "type": "NO_ANSWER"}) for name, t in offered.items()
+                 if t["state"] == "released" and name not in answers]
+        for name, p in todo:
+            t = offered[name]
             fastest = min(s[0] for s in t["strats"])
             cancelled = p["type"] == "CANCEL_TASK"
-            cplex = w["cfg"]["flavour"] == "cplex"
             cases.append("(%s, %s, %s, %s, %s, %s)" % (gz(t["deadline"]), gz(now), gz(fastest), gbool(bool(p["placed"])),
                                                        gbool(cancelled), gbool(cplex)))
-            where.append((i, p["task"]))
+            where.append((i, name, p["type"]))
             hp = t["deadline"] < now + fastest
             if (hp and p["placed"]) or (cancelled != hp if cplex else cancelled):
-                pybad.append((i, p["task"]))
-    what = ("a hopeless task (deadline < now + fastest runtime) was placed / not cancelled by the CPLEX admission control, or a task "
-            "that is not hopeless was cancelled")
+                pybad.append((i, name, p["type"]))
+    what = ("a hopeless task (deadline < now + fastest runtime) was placed / not answered with CANCEL_TASK by the CPLEX admission control, "
+            "or a task that is not hopeless was cancelled")
     if not cases:
         return
+    reported = set()
     try:
         bad = ctx.monitor_stream("M-hopeless", HEADER, "Z * Z * Z * bool * bool * bool",
                                  "(fun q => match q with (d, n, f, placed, cancelled, cplex) => hopeless_answer_okb d n f placed cancelled cplex end)",
                                  cases, shard=200)
         for b in bad[:3]:
-            i, name = where[b]
-            ctx.violation("hopeless%d" % i, {"stream": "M-hopeless", "world": worlds[i], "task": name,
+            i, name, ty = where[b]
+            reported.add((i, name))
+            ctx.violation("hopeless%d" % i, {"stream": "M-hopeless", "world": worlds[i], "task": name, "answer": ty,
                                              "placements": results[i]["placements"], "what": what})
     except core.ModelEvalError as e:
         ctx.broken.append({"kind": "monitor", "name": "M-hopeless", "detail": str(e)[-800:]})
-        for i, name in pybad[:3]:
-            ctx.violation("hopeless%d" % i, {"stream": "M-hopeless(python)", "world": worlds[i], "task": name,
+    st = ctx.cov["streams"].setdefault("M-hopeless(python twin)", {"cases": 0, "failing": 0})
+    st["cases"] += len(cases)
+    st["failing"] += len(pybad)
+    if not reported:
+        for i, name, ty in pybad[:3]:
+            ctx.violation("hopeless%d" % i, {"stream": "M-hopeless(python twin)", "world": worlds[i], "task": name, "answer": ty,
                                              "placements": results[i]["placements"], "what": what})
 
 
